@@ -18,7 +18,8 @@ Open Scope Z_scope.
    it was announced); construction stores the arguments (or the defaults) the
    same way and notifies nobody; the vectors a constructor stores are new
    objects (not its argument objects, not shared with another transform: [o_id]
-   after ONew), an assigned vector is stored as the object it is. *)
+   after ONew); whether a setter keeps the assigned object or stores an equal
+   new vector is left open. *)
 Theorem C20_setter_notifies_stored :
   forall c : C20_case, wf_b c = true -> known_b c = false -> accepts c = true -> holds c.
 Proof. intros c _ _. exact (accepts_holds c). Qed.
